@@ -937,7 +937,11 @@ func (fb *functionBuilder) emitText(txt []byte, inURL, isURLSet bool) {
 	fb.text.addr = fb.currentAddr()
 	fb.text.txt = append(fb.text.txt, txt)
 	fb.text.inURL = inURL
-	a, b := encodeUint16(uint16(len(fb.fn.Text)))
+	index := len(fb.fn.Text)
+	if index == maxTextsCount {
+		panic(newLimitExceededError(fb.fn.Pos, fb.path, "texts count exceeded %d", maxTextsCount))
+	}
+	a, b := encodeUint16(uint16(index))
 	var c int8
 	if inURL {
 		c = 1
